@@ -65,7 +65,7 @@ func cliReadCases(path string) []cliCase {
 	sc.Buffer(make([]byte, 1<<20), 1<<24)
 	for sc.Scan() {
 		fs := strings.Fields(sc.Text())
-		if len(fs) < 2 || (fs[0] != "case" && fs[0] != "sec") {
+		if len(fs) < 2 || (fs[0] != "case" && fs[0] != "sec" && fs[0] != "iso") {
 			continue
 		}
 		c := cliCase{kind: fs[0], id: fs[1], kv: map[string]string{}, line: sc.Text()}
@@ -315,6 +315,10 @@ func TestVerifCLI(t *testing.T) {
 		switch {
 		case c.kind == "sec":
 			cliSecurity(t, w, tool, c)
+		case c.kind == "iso":
+			if tool == "gw" {
+				cliIsolation(t, w, c)
+			}
 		case tool == "sub":
 			cliSub(t, w, c, dir, n)
 		case tool == "pub":
@@ -635,6 +639,245 @@ func cliGateway(t *testing.T, w *bufio.Writer, c cliCase, dir string, n int) {
 	stop()
 	sort.Strings(parts[:0])
 	fmt.Fprintf(w, "R %s gw map %s\n", c.id, strings.Join(parts, ","))
+}
+
+// ---- C15: sessions are isolated. One observed client runs a fixed conversation through the real
+// gateway (Application.Run, accept loop included); the conversation is run alone and again with a
+// second, disruptive client in between. What the observed client receives, and what the broker
+// receives on ITS connection, must be the same.
+
+type isoBroker struct {
+	ln    net.Listener
+	mu    sync.Mutex
+	conns map[string]net.Conn // MQTT client ID -> connection
+	log   map[string][]string // MQTT client ID -> what the broker saw
+}
+
+func newIsoBroker() *isoBroker {
+	ln, err := net.Listen("tcp", "127.0.0.1:0")
+	if err != nil {
+		panic(err)
+	}
+	b := &isoBroker{ln: ln, conns: map[string]net.Conn{}, log: map[string][]string{}}
+	go func() {
+		for {
+			c, err := ln.Accept()
+			if err != nil {
+				return
+			}
+			go b.serve(c)
+		}
+	}()
+	return b
+}
+
+func (b *isoBroker) note(id, s string) {
+	b.mu.Lock()
+	b.log[id] = append(b.log[id], s)
+	b.mu.Unlock()
+}
+
+func (b *isoBroker) serve(c net.Conn) {
+	id := "?"
+	defer func() { b.note(id, "closed") }()
+	for {
+		p, err := mqPkts.ReadPacket(c)
+		if err != nil {
+			return
+		}
+		switch m := p.(type) {
+		case *mqPkts.ConnectPacket:
+			id = m.ClientIdentifier
+			b.mu.Lock()
+			b.conns[id] = c
+			b.mu.Unlock()
+			b.note(id, fmt.Sprintf("connect user=%q pass=%q will=%v wt=%q wm=%q", m.Username, string(m.Password), m.WillFlag, m.WillTopic, string(m.WillMessage)))
+			mqPkts.NewControlPacket(mqPkts.Connack).Write(c)
+		case *mqPkts.SubscribePacket:
+			b.note(id, fmt.Sprintf("subscribe %v", m.Topics))
+			a := mqPkts.NewControlPacket(mqPkts.Suback).(*mqPkts.SubackPacket)
+			a.MessageID = m.MessageID
+			a.ReturnCodes = []byte{m.Qoss[0]}
+			a.Write(c)
+		case *mqPkts.PublishPacket:
+			b.note(id, fmt.Sprintf("publish %q %q", m.TopicName, string(m.Payload)))
+			if m.Qos == 1 {
+				a := mqPkts.NewControlPacket(mqPkts.Puback).(*mqPkts.PubackPacket)
+				a.MessageID = m.MessageID
+				a.Write(c)
+			}
+		case *mqPkts.PingreqPacket:
+			b.note(id, "pingreq")
+			mqPkts.NewControlPacket(mqPkts.Pingresp).Write(c)
+		case *mqPkts.DisconnectPacket:
+			b.note(id, "disconnect")
+		}
+	}
+}
+
+func (b *isoBroker) publishTo(id, topic string) {
+	b.mu.Lock()
+	c := b.conns[id]
+	b.mu.Unlock()
+	if c == nil {
+		return
+	}
+	p := mqPkts.NewControlPacket(mqPkts.Publish).(*mqPkts.PublishPacket)
+	p.TopicName = topic
+	p.Payload = []byte("from-broker")
+	p.Write(c)
+}
+
+type isoClient struct {
+	conn net.Conn
+	log  []string
+}
+
+func (c *isoClient) send(p pkts.Packet) {
+	if data, err := p.Pack(); err == nil {
+		c.conn.Write(data)
+	}
+}
+
+// recv waits for one packet and records it
+func (c *isoClient) recv() pkts.Packet {
+	p := snRead(c.conn, 700*time.Millisecond)
+	if p == nil {
+		c.log = append(c.log, "<nothing>")
+		return nil
+	}
+	c.log = append(c.log, fmt.Sprintf("%v", p))
+	return p
+}
+
+func cliIsolation(t *testing.T, w *bufio.Writer, c cliCase) {
+	run := func(withB bool, bFirst bool) (string, bool) {
+		br := newIsoBroker()
+		defer br.ln.Close()
+		port := freeUDPPort()
+		args := []string{"bisquitt", "--host", "127.0.0.1", "--port", strconv.Itoa(port), "--auth", "--insecure",
+			"--mqtt-host", "127.0.0.1", "--mqtt-port", strconv.Itoa(br.ln.Addr().(*net.TCPAddr).Port),
+			"--mqtt-user", "gwuser", "--mqtt-password", "gwpassword0"}
+		errc := make(chan error, 1)
+		go func() {
+			e, _ := runApp(args, 60*time.Second)
+			errc <- e
+		}()
+		defer func() {
+			syscall.Kill(os.Getpid(), syscall.SIGTERM)
+			select {
+			case <-errc:
+			case <-time.After(10 * time.Second):
+			}
+		}()
+		dial := func() *isoClient {
+			for try := 0; try < 200; try++ {
+				cc, err := net.Dial("udp", fmt.Sprintf("127.0.0.1:%d", port))
+				if err == nil {
+					// probe: the gateway answers a PINGREQ-less nothing; just make sure the port is open
+					return &isoClient{conn: cc}
+				}
+				time.Sleep(10 * time.Millisecond)
+			}
+			return nil
+		}
+		time.Sleep(150 * time.Millisecond) // the gateway starts listening
+		a, b := dial(), dial()
+		defer a.conn.Close()
+		defer b.conn.Close()
+		pb := cliUnhex(c.kv["pb"])
+		bConnect := func() {
+			if !withB {
+				return
+			}
+			b.send(pkts1.NewConnect(60, []byte("isoB"), false, true))
+			b.send(pkts1.NewAuthPlain("userB", []byte(pb)))
+			b.recv()
+		}
+		bNoise := func() {
+			if !withB {
+				return
+			}
+			for _, n := range []string{"iso/a", "x/1", "x/2"} {
+				r := pkts1.NewRegister(0, n)
+				r.SetMessageID(7)
+				b.send(r)
+				b.recv()
+			}
+			s := pkts1.NewSubscribe("#", 0, false, 1, pkts1.TIT_STRING)
+			s.SetMessageID(8)
+			b.send(s)
+			b.recv()
+			b.conn.Write([]byte{3, 4, 1})
+			b.conn.Write([]byte{1})
+		}
+		bDie := func() {
+			if !withB {
+				return
+			}
+			if c.kv["bdies"] == "disconnect" {
+				b.send(pkts1.NewDisconnect(0))
+			} else {
+				b.send(pkts1.NewPublish(999, []byte("x"), false, 0, false, pkts1.TIT_REGISTERED)) // unknown topic ID: session error
+			}
+			b.recv()
+			time.Sleep(300 * time.Millisecond) // B's session goroutines end
+		}
+		if bFirst {
+			bConnect()
+		}
+		// --- the observed conversation
+		a.send(pkts1.NewConnect(60, []byte("isoA"), true, true))
+		a.send(pkts1.NewAuthPlain("userA", []byte("passA")))
+		a.recv() // WILLTOPICREQ
+		if !bFirst {
+			bConnect()
+		}
+		a.send(pkts1.NewWillTopic("will/a", 1, false))
+		a.recv() // WILLMSGREQ
+		a.send(pkts1.NewWillMsg([]byte("bye")))
+		a.recv() // CONNACK
+		r := pkts1.NewRegister(0, "iso/a")
+		r.SetMessageID(1)
+		a.send(r)
+		var tid uint16
+		if ra, ok := a.recv().(*pkts1.Regack); ok {
+			tid = ra.TopicID
+		}
+		bNoise()
+		s := pkts1.NewSubscribe("iso/+", 0, false, 1, pkts1.TIT_STRING)
+		s.SetMessageID(2)
+		a.send(s)
+		a.recv()
+		p := pkts1.NewPublish(tid, []byte("hello"), false, 1, false, pkts1.TIT_REGISTERED)
+		p.SetMessageID(3)
+		a.send(p)
+		a.recv()
+		bDie()
+		br.publishTo("isoA", "iso/new")
+		if rg, ok := a.recv().(*pkts1.Register); ok {
+			ack := pkts1.NewRegack(rg.TopicID, pkts1.RC_ACCEPTED)
+			ack.CopyMessageID(rg)
+			a.send(ack)
+			a.recv()
+		}
+		a.send(pkts1.NewPingreq(nil))
+		a.recv()
+		a.send(pkts1.NewDisconnect(0))
+		a.recv()
+		time.Sleep(200 * time.Millisecond)
+		br.mu.Lock()
+		bl := strings.Join(br.log["isoA"], " ; ")
+		br.mu.Unlock()
+		return strings.Join(a.log, " ; ") + " || broker: " + bl, true
+	}
+	alone, _ := run(false, false)
+	with, _ := run(true, c.kv["order"] == "bfirst")
+	same := 0
+	if alone == with {
+		same = 1
+	}
+	fmt.Fprintf(w, "R %s gw iso same=%d alone=%s with=%s\n", c.id, same, hex.EncodeToString([]byte(alone)), hex.EncodeToString([]byte(with)))
 }
 
 // ---- C31: refusal to start with plaintext credentials
